@@ -255,6 +255,8 @@ def units(tier, seed):
             out.append(("mutate", {"curve": cn, "group": grp, "full": not q}))
         out.append(("pem", {"curve": cn}))
         out.append(("strings", {"curve": cn}))
+    for grp in ("vk-string", "vk-der", "sk-der", "sk-string", "sig-string"):
+        out.append(("mutate", {"curve": "SECP160r1", "group": grp, "full": False}))
     out.append(("mutate", {"curve": "NIST224p", "group": "vk-string", "full": not q}))
     out.append(("mutate", {"curve": "NIST224p", "group": "vk-der", "full": False}))
     for i in range(4):
